@@ -82,6 +82,8 @@ class Gen:
             urrs = [u for u in self.pal["urr"][:maxid] if r.random() < 0.4]
             if no_loose and o == "update" and not urrs:
                 urrs = [r.choice(self.pal["urr"][:maxid])]
+            if urrs and r.random() < 0.15:
+                urrs = urrs + [r.choice(urrs)]      # the same URR ID IE twice: still ONE reference of this PDR
             kw = {"urrs": urrs, "hasurrs": bool(urrs), "ueip": r.random() < 0.5, "far": r.choice([0] + self.pal["far"][:2])}
         if o == "create":
             s["ids"][kind].add(i)
@@ -178,6 +180,29 @@ class Gen:
         if second["op"] == "remove":
             s["ids"]["pdr"].discard(p)
         return self.emit(ev("mod", peer=s["peer"], seq=self.nseq(s["peer"]), sref=s["ord"], ops=ops))
+
+    def dupattach_ev(self):
+        """Update PDR naming a URR twice (one reference), then the PDR goes away or is re-pointed: final usage due (C12)"""
+        r = self.r
+        s = self.pick_sess(1.0)
+        if s is None or not s["alive"] or not s["ids"]["pdr"] or not s["ids"]["urr"]:
+            return self.mod_ev()
+        p = r.choice(sorted(s["ids"]["pdr"]))
+        us = sorted(s["ids"]["urr"])
+        u = r.choice(us)
+        keep = [x for x in us if x != u and r.random() < 0.5]
+        lst = keep + [u, u]
+        r.shuffle(lst)
+        self.emit(ev("mod", peer=s["peer"], seq=self.nseq(s["peer"]), sref=s["ord"], ops=[op("update", "pdr", p, urrs=lst, hasurrs=True)]))
+        if r.random() < 0.3:
+            self.report_ev()
+        if r.random() < 0.5:
+            s["ids"]["pdr"].discard(p)
+            second = op("remove", "pdr", p)
+        else:
+            other = [x for x in self.pal["urr"] if x != u] or [u]
+            second = op("update", "pdr", p, urrs=[r.choice(other)], hasurrs=True)
+        return self.emit(ev("mod", peer=s["peer"], seq=self.nseq(s["peer"]), sref=s["ord"], ops=[second]))
 
     def del_ev(self, lit=0.1):
         r = self.r
@@ -349,6 +374,22 @@ def rxtx(seed, n, length=70):
             else:
                 g.assoc_ev()
         out.append(script("rt-%d-%d" % (seed, i), g, maxrt=rng.randint(0, 3), txseq0=txseq0))
+    # the largest configurable retry count (uint8): one report request timed out 258 times - 255 retransmissions, then
+    # abandoned and released, nothing afterwards
+    for j, mr in enumerate([255, 254][:max(1, n // 40)]):
+        rng = random.Random(seed * 1000033 + 7777 + j)
+        g = Gen(rng, npeers=2)
+        g.assoc_ev(node="n1", peer="p1")
+        g.emit(ev("est", peer="p1", seq=g.nseq("p1"), node="n1", cp="7", ops=[op("create", "far", 1)]))
+        dl = {"k": "dldr", "urr": 0, "trig": 0, "pdr": 1, "action": 12, "pkt": "45000001", "tok": 0,
+              "vals": {k: "" for k in ("tv", "uv", "dv", "tp", "up", "dp", "st", "et", "du")}}
+        g.emit(ev("report", sref=1, reports=[dict(dl)]))
+        for _ in range(mr + 3):
+            g.emit(ev("timeout", tt="tx", rref=1))
+        g.hb_ev(peer="p1")
+        g.emit(ev("report", sref=1, reports=[dict(dl)]))
+        g.emit(ev("timeout", tt="tx", rref=2))
+        out.append(script("rt-%d-max%d" % (seed, mr), g, maxrt=mr, txseq0=""))
     return out
 
 
@@ -364,7 +405,9 @@ def usage(seed, n, length=70, pfault=0.0):
             g.est_ev(bad=0, maxops=6)
         for _ in range(length):
             x = rng.random()
-            if x < 0.06:
+            if x < 0.03:
+                g.dupattach_ev()
+            elif x < 0.06:
                 g.detach_ev()
             elif x < 0.50:
                 g.mod_ev(lit=0.02, no_loose=rng.random() < 0.9, pfault=pfault)
